@@ -1,0 +1,9 @@
+//go:build verif
+
+// C20: HKDF-Expand-Label is a cryptographic primitive for the key-update property: it is kept
+// opaque (never inlined) and observed through its call event. Comment-only; read by /verif/vc.
+package keyschedule
+
+//@ func HkdfExpandLabel
+//@ noinline
+//@ end
